@@ -325,7 +325,8 @@ def fuzz_campaign(tier, seed):
             od = os.path.join(tmp, "p%d" % w)
             os.makedirs(os.path.join(od, "corpus"))
             cmd = [sys.executable, "-m", "vf.fuzz.c19_validator", od, os.path.join(od, "corpus"),
-                   "-runs=%d" % runs, "-seed=%d" % (seed * 100 + w + 1), "-max_len=256"]
+                   "-runs=%d" % runs, "-seed=%d" % (seed * 100 + w + 1), "-max_len=256",
+                   "-artifact_prefix=%s/" % od]
             procs.append((od, subprocess.Popen(cmd, stdout=subprocess.DEVNULL, stderr=subprocess.PIPE, text=True)))
         stats = {"engine": "atheris/libFuzzer", "processes": nproc, "executions": 0, "valid": 0, "invalid": 0,
                  "boundary": 0, "distinct": 0, "samples": []}
